@@ -189,6 +189,40 @@ def run_rename_probe(prop, src_root="/repo"):
         shutil.rmtree(scratch, ignore_errors=True)
 
 
+def run_respelling_probes(prop, src_root="/repo"):
+    """Mechanical invariance probes: four behaviour-preserving rewrites of every function of the package (mirror comparisons,
+    `not (a in b)`, swapped if/else branches, else-nesting after an early exit; tools/mech_neutral.py); the check of `prop` must give
+    the verdict it gives on the tree as written."""
+    import ast as _ast
+    import shutil
+    import subprocess
+    import tempfile
+    src = open(os.path.join(HERE_VERIF, "tools", "mech_neutral.py")).read().rsplit("\nmain()", 1)[0]
+    ns = {"__name__": "mech_neutral_tool", "__file__": os.path.join(HERE_VERIF, "tools", "mech_neutral.py")}
+    exec(compile(src, "mech_neutral.py", "exec"), ns)
+    out = {}
+    for mode, T in ns["MODES"].items():
+        scratch = tempfile.mkdtemp(prefix="mechprobe_")
+        try:
+            for d in ("ak", "bin", "tests"):
+                if os.path.isdir(os.path.join(src_root, d)):
+                    shutil.copytree(os.path.join(src_root, d), os.path.join(scratch, d))
+            T.n = 0
+            for root, _d, fs in os.walk(os.path.join(scratch, "ak")):
+                for fn in fs:
+                    if fn.endswith(".py"):
+                        p_ = os.path.join(root, fn)
+                        tree = _ast.parse(open(p_).read())
+                        tree = T().visit(tree)
+                        _ast.fix_missing_locations(tree)
+                        open(p_, "w").write(_ast.unparse(tree) + "\n")
+            r = subprocess.run([os.path.join(HERE_VERIF, "check"), prop, "--tier", "quick", "--no-write", "--repo", scratch], capture_output=True, text=True, cwd=HERE_VERIF)
+            out[mode] = {"rewrites": T.n, "exit_on_rewritten_tree": r.returncode, "same_verdict_as_written": r.returncode == 0}
+        finally:
+            shutil.rmtree(scratch, ignore_errors=True)
+    return out
+
+
 def main():
     props = [a.upper() for a in sys.argv[1:] if not a.startswith("-")] or PROPS
     src = os.environ.get("VERIF_REPO", "/repo")
